@@ -304,6 +304,11 @@ def _do_noise(fr, spy, op, c, V, tag, empty_state):
                 x_mean = _entry_from_index_req(r, M, None, V, tag, site, tab_rtol)
                 if x_mean is not None:
                     cands = [x_mean]
+            if it.index_reqs and cands is None:
+                V('foreign_table', '%s: the mean was drawn (%r) from something that is not the mean table%s'
+                  % (tag, it.index_reqs[0], ' (shipped asset * dt/%r)' % OBS_DT if op['tables'] == 'none' else ''),
+                  site=site)
+                return 'foreign_table', info
             if cands is None:
                 cands = list(np.unique(M)) if len(M) <= 64 else []
         good = [m for m in cands if np.all(np.abs(noise - it.draw * m / k) <= REL_SCALE * np.abs(it.draw * m / k))]
@@ -928,7 +933,7 @@ def run(ctx):
     depth = 4 if thorough else 3
     hshapes = [(1, 1), (3, 4), (16, 8)] + ([(32, 64)] if thorough else [])
     hres = [(1.0, 1.0), (1.51, 1.0), (BL_DF, BL_DT)]
-    pals = ['A', 'B'] if thorough else ['A']
+    pals = ['A', 'B']
     hcases = []
     for shape in hshapes:
         for df, dt in hres:
